@@ -85,6 +85,9 @@ func cmdCheck(args []string) int {
 		eng.timeoutS = 60
 		eng.requireAll = true
 	}
+	if selftestMode && os.Getenv("GOVC_NOVCCACHE") == "" {
+		eng.vcCache = loadVCCache()[cfg.ID]
+	}
 	type job struct {
 		key string
 		res []*UnitResult
@@ -388,6 +391,24 @@ func cmdCheck(args []string) int {
 				}
 			}
 		}
+		// hashes of the verification conditions of fully discharged functions (vccache.go)
+		vc := loadVCCache()
+		mine := map[string]string{}
+		for _, j := range jobs {
+			for _, r := range j.res {
+				ok := len(r.Unsupported) == 0 && r.VCHash != ""
+				for _, o := range r.Obligations {
+					if o.Status != "discharged" {
+						ok = false
+					}
+				}
+				if ok {
+					mine[r.Func] = r.VCHash
+				}
+			}
+		}
+		vc[cfg.ID] = mine
+		writeJSON(vcCacheFile, vc)
 		os.MkdirAll("/verif/baseline", 0o755)
 		writeJSON(localsFile, lt)
 		writeJSON(filepath.Join("/verif/baseline", cfg.ID+".json"), Baseline{Property: cfg.ID, Obligations: newBase})
